@@ -342,6 +342,7 @@ func main() {
 	minGo := flag.Int("min-gos", 0, "")
 	minChan := flag.Int("min-chanops", 0, "")
 	flag.BoolVar(&loopYields, "loops", false, "also insert a yield at the head of every loop body")
+	only := flag.String("only", "", "comma separated base names: rewrite only these files")
 	flag.Parse()
 	ctx := build.Default
 	ctx.BuildTags = []string{"verif"}
@@ -359,6 +360,9 @@ func main() {
 			ok, err := ctx.MatchFile(dir, n)
 			if err != nil {
 				die("%v", err)
+			}
+			if *only != "" && !strings.Contains(","+*only+",", ","+n+",") {
+				ok = false
 			}
 			if ok {
 				names = append(names, n)
